@@ -20,8 +20,8 @@ ID = "C19"
 LEVEL = "exploration"
 TECHNIQUE = "reference-oracle monitor: CPython evaluates the expression pyanalyze analysed"
 RULE = (
-    "case = one expression over a fixed universe of 45 literal operands (ints incl. 0/negatives, bools, floats, "
-    "complex, str, bytes, tuples incl. empty/nested, None, Enum and IntEnum members, classes, modules os/math). "
+    "case = one expression over a fixed universe of 48 literal operands (ints incl. 0/negatives, bools, floats, "
+    "complex, str, bytes, tuples incl. empty/nested, None, Enum, IntEnum, IntFlag and str-mixin Enum members, classes, modules os/math). "
     "(1) flat, enumerated exhaustively in both tiers: operand x 13 binary operators x operand ('%' with a str/bytes "
     "left operand excluded: C17), operand x 4 unary operators, operand x 21 subscript indices (in range / out of "
     "range / negative ints, bool, IntEnum, slices incl. a non-index bound, str, None, float), operand.attr for every "
@@ -81,6 +81,12 @@ class Color(enum.Enum):
 class Num(enum.IntEnum):
     ONE = 1
     TWO = 2
+class Perm(enum.IntFlag):
+    R = 4
+    W = 2
+class Unit(str, enum.Enum):
+    PLAIN = "u"
+    FMT = "<%s>"
 class A:
     x = 1
     def m(self):
@@ -112,6 +118,8 @@ OPERANDS = [
     "None",
     # enum / IntEnum members
     "Color.RED", "Color.BLUE", "Num.ONE", "Num.TWO",
+    # IntFlag members (operators return members of the flag class) and a str-mixin enum
+    "Perm.R", "Perm.W", "Unit.PLAIN",
     # classes
     "A", "B", "C", "Color", "Num", "int", "tuple",
     # modules
@@ -277,6 +285,7 @@ class Node:
 
     def __init__(self, node: ast.AST, ns: dict, is_root: bool = False):
         self.node = node
+        self.ns = ns
         self.src = ast.unparse(node)
         self.children: list = []
         self.kind = "leaf"
@@ -402,6 +411,27 @@ def norm_exc(e: BaseException) -> str:
 
 def mechanism(shape: str, direction: str, extra: str = "") -> str:
     return f"{shape}|{direction}" + (f"|{extra}" if extra else "")
+
+
+INTFLAG_KEY = "intflag|bit-operator-between-a-flag-member-and-a-plain-int-is-evaluated-as-an-int-operation"
+
+
+def has_flag_int_bitop(n: "Node") -> bool:
+    """n or one of its operands is `flag-member <&,|,^> plain int` (either order): typeshed declares
+    Flag.__and__/__or__/__xor__(self, other: Self), so pyanalyze rejects that call, evaluates the reflected int operator
+    and carries an int literal where CPython has a member of the flag class; everything computed from it inherits the
+    wrong value."""
+    for sub in ast.walk(n.node):
+        if isinstance(sub, ast.BinOp) and isinstance(sub.op, (ast.BitAnd, ast.BitOr, ast.BitXor)):
+            try:
+                a = eval(compile(ast.Expression(sub.left), "<c19>", "eval"), n.ns)
+                b = eval(compile(ast.Expression(sub.right), "<c19>", "eval"), n.ns)
+            except Exception:  # noqa: BLE001
+                continue
+            fa, fb = isinstance(a, enum.Flag), isinstance(b, enum.Flag)
+            if fa != fb and isinstance(b if fa else a, int):
+                return True
+    return False
 
 
 _SEQ = (str, bytes, tuple)
@@ -542,7 +572,7 @@ def judge(ctx, src: str, family: str, top: ast.AST, line_diags, ns: dict) -> Non
                 if getattr(n.node, "col_offset", None) == d0.col:
                     subj = n
             ctx.violation(
-                mechanism(subj.shape(), "spurious", d0.code),
+                INTFLAG_KEY if has_flag_int_bitop(root) else mechanism(subj.shape(), "spurious", d0.code),
                 f"{src}: CPython gives {safe_repr(root.val)}; pyanalyze reports {d0.short()[:300]}",
                 wit,
             )
@@ -584,7 +614,7 @@ def judge(ctx, src: str, family: str, top: ast.AST, line_diags, ns: dict) -> Non
         if r is False:
             direction = "wrong-literal" if how == "known" else "wrong-literal-tuple"
             ctx.violation(
-                mechanism(n.shape(), direction, f"{tname(claimed_val)}-for-{tname(n.val)}"),
+                INTFLAG_KEY if has_flag_int_bitop(n) else mechanism(n.shape(), direction, f"{tname(claimed_val)}-for-{tname(n.val)}"),
                 f"{src}: {n.src} evaluates to {safe_repr(n.val)} ({tname(n.val)}) but pyanalyze infers the literal "
                 f"{safe_repr(claimed_val)} ({tname(claimed_val)})",
                 wit,
